@@ -13,8 +13,8 @@
 
    Where a combinator is an existing Base/Str.v function it is defined as an alias and the
    trivial lemma  <combinator>_is  is proved here. *)
-From Coq Require Import String List NArith Bool Arith.
-From CMinx Require Import Base.Str Model.Writer.
+From Coq Require Import String List NArith ZArith Bool Arith.
+From CMinx Require Import Base.Str Model.Writer Model.Lexer Model.Parser.
 Import ListNotations.
 
 (* ------------------------------------------------------------------ *)
@@ -184,6 +184,97 @@ Definition py_w_bulleted_list (world : wstate) (w : handle) (items : list str) :
   fst (wstep [] world (OBullets w items)).
 Definition py_w_enumerated_list (world : wstate) (w : handle) (items : list str) : wstate :=
   fst (wstep [] world (OEnum w items)).
+
+(* ------------------------------------------------------------------ *)
+(* ints that may be negative                                           *)
+
+(* A Python int expression that can be negative (a negative literal, a subtraction, or anything
+   computed from those) is an integer Z; every other int of the subset is a natural number and is
+   injected with py_zint_of_int where the two meet.  Indices, slice bounds and range bounds must
+   be natural numbers (the translator rejects a Z there). *)
+Definition py_zint_of_int (n : nat) : Z := Z.of_nat n.
+(* Python:   a + b  /  a - b   where an operand may be negative *)
+Definition py_zint_add (a b : Z) : Z := (a + b)%Z.
+Definition py_zint_sub (a b : Z) : Z := (a - b)%Z.
+(* Python:   a == b, a != b, a < b, a <= b, a > b, a >= b   where an operand may be negative *)
+Definition py_zint_eq (a b : Z) : bool := Z.eqb a b.
+Definition py_zint_ne (a b : Z) : bool := negb (Z.eqb a b).
+Definition py_zint_lt (a b : Z) : bool := Z.ltb a b.
+Definition py_zint_le (a b : Z) : bool := Z.leb a b.
+Definition py_zint_gt (a b : Z) : bool := Z.ltb b a.
+Definition py_zint_ge (a b : Z) : bool := Z.leb b a.
+
+(* ------------------------------------------------------------------ *)
+(* more loops and comprehensions                                       *)
+
+(* Python:   for v in xs: BODY        (BODY containing return, no break)
+   BODY yields inl st (the new state, go on) or inr r (a return statement was executed and the
+   function result is r); so does the loop. *)
+Fixpoint py_for_ret {St A R : Type} (xs : list A) (body : St -> A -> St + R) (init : St) : St + R :=
+  match xs with
+  | [] => inl init
+  | x :: r => match body init x with
+              | inl st => py_for_ret r body st
+              | inr res => inr res
+              end
+  end.
+
+(* Python:   enumerate(xs) *)
+Definition py_enumerate {A : Type} (xs : list A) : list (nat * A) := combine (seq 0 (length xs)) xs.
+
+(* Python:   [ELT for v in xs if COND]  with  p = fun v => COND,  f = fun v => ELT *)
+Definition py_listcomp_if {A B : Type} (p : A -> bool) (f : A -> B) (xs : list A) : list B :=
+  map f (filter p xs).
+
+(* ------------------------------------------------------------------ *)
+(* the ANTLR parse-tree protocol (parameters that are parser contexts) *)
+
+(* A CMakeParser.Command_invocationContext is a Model.Parser.cmd; a Single_argumentContext or
+   Compound_argumentContext (and a parameter annotated ParserRuleContext, which the aggregator
+   only ever passes such a context) is a Model.Parser.arg.  The translator understands exactly
+   this vocabulary on them: *)
+
+(* Python:   isinstance(a, CMakeParser.Compound_argumentContext) *)
+Definition py_is_compound (a : arg) : bool :=
+  match a with ACompound _ => true | ASingle _ _ => false end.
+(* Python:   a.getText()   for an argument context: the concatenated token texts *)
+Definition py_get_text (a : arg) : str := arg_text a.
+(* Python:   ctx.getText()   for a command invocation (only used to build log messages) *)
+Definition py_cmd_text (c : cmd) : str :=
+  c_name c ++ [lpar] ++ concat (map arg_text (c_args c)) ++ [rpar].
+(* Python:   [.. for v in a.getChildren()
+                 if isinstance(v, (CMakeParser.Single_argumentContext,
+                                   CMakeParser.Compound_argumentContext))]
+   the iterated list: the children that are arguments (not the parenthesis tokens) *)
+Definition py_argument_children (a : arg) : list arg :=
+  match a with ACompound l => l | ASingle _ _ => [] end.
+(* the same for  ctx.getChildren()  of a command invocation *)
+Definition py_cmd_argument_children (c : cmd) : list arg := c_args c.
+(* Python:   ctx.single_argument()   the direct single_argument children, in order *)
+Definition py_single_arguments (c : cmd) : list arg :=
+  filter (fun a => negb (py_is_compound a)) (c_args c).
+(* default for the total py_list_index on a list of contexts (never observed under the bounds
+   tests the Python code makes before indexing) *)
+Definition py_no_arg : arg := ASingle TIdent [].
+
+(* nesting depth of an argument *)
+Fixpoint py_arg_depth (a : arg) : nat :=
+  match a with
+  | ASingle _ _ => 0
+  | ACompound l => S (fold_right (fun x m => Nat.max (py_arg_depth x) m) 0 l)
+  end.
+
+(* Python:   def f(a): ... f(child) ...     a function over an argument context whose recursive
+   calls are all on argument children of its parameter (the translator checks this).  body is
+   the function body with the recursive call abstracted; the recursion is unrolled depth + 1
+   times, which such a function cannot exceed, so dflt is never returned. *)
+Fixpoint py_fuel_fix {A R : Type} (n : nat) (body : (A -> R) -> A -> R) (dflt : R) (a : A) : R :=
+  match n with
+  | O => dflt
+  | S k => body (py_fuel_fix k body dflt) a
+  end.
+Definition py_arg_rec {R : Type} (dflt : R) (body : (arg -> R) -> arg -> R) (a : arg) : R :=
+  py_fuel_fix (S (py_arg_depth a)) body dflt a.
 
 (* ------------------------------------------------------------------ *)
 (* the trivial alias lemmas                                            *)
